@@ -400,6 +400,21 @@ def pinned_tokens():
     return PINNED
 
 
+PINNED_LOOPS = None
+
+
+def pinned_loops():
+    global PINNED_LOOPS
+    if PINNED_LOOPS is None:
+        import json
+        p = os.path.join(os.path.dirname(os.path.dirname(os.path.abspath(__file__))), 'contracts', 'pinned_loops.json')
+        try:
+            PINNED_LOOPS = json.load(open(p))
+        except Exception:
+            PINNED_LOOPS = {}
+    return PINNED_LOOPS
+
+
 class Edit:
     def __init__(self, start, end, text, tag):
         self.start = start
@@ -552,7 +567,22 @@ def weave_extract(ub, ex, rf, repo_root):
             itname = None
             if 'iter' in rest:
                 itname = rest[rest.index('iter') + 1]
-            pos = nth_occurrence(m, anchor, n, '%s loop header' % alias)
+            lkey = '%s#%d' % (anchor, n)
+            lpos = [mm_.start() for mm_ in re.finditer(r'\b(?:for|while|loop)\b', m)]
+            rec.setdefault('loops', {'count': len(lpos), 'ord': {}})
+            try:
+                pos = nth_occurrence(m, anchor, n, '%s loop header' % alias)
+                if pos in lpos:
+                    rec['loops']['ord'][lkey] = lpos.index(pos)
+            except WeaveError:
+                # the header text changed: if the function still has the same number of loops, the directive goes to the loop at the
+                # same ordinal position (an edited header keeps its invariants: they hold or they fail, which is a decision)
+                pl = pinned_loops().get('%s::%s' % (pin_key, alias))
+                if pl and pl.get('count') == len(lpos) and lkey in pl.get('ord', {}):
+                    pos = lpos[pl['ord'][lkey]]
+                    rec['transformations'].append({'rule': 'E5', 'what': 'loop header %r not found: invariants attached to the loop at the same ordinal position (%d of %d)' % (anchor, pl['ord'][lkey] + 1, len(lpos))})
+                else:
+                    raise
             # find body '{' at depth 0
             k = pos
             while k < len(m):
